@@ -47,6 +47,7 @@ class C09(InterpProp):
         return gen.Knobs(contracts=self.with_contracts, max_states=rnd.choice([6, 10, 16]))
 
     def gen_case(self, rnd, tier):
+        self._third = rnd.choice([False, False, 'checking', 'ignoring'])
         if rnd.random() < 1 / 6:
             path = rnd.choice(SHIPPED)
             try:
@@ -87,6 +88,9 @@ class C09(InterpProp):
 
     def _pair(self, enc, sc, ops1):
         ops = [['create', 0, False, [], 0], ['create', 0, True, [], 0]]
+        if getattr(self, '_third', False):
+            # a third interpreter of the same statechart, created last and never run: its `ignore_contract` is its own
+            ops.append(['create', 0, self._third == 'ignoring', [], 0])
         for op in ops1:
             ops.append(op)
             op2 = list(op)
@@ -110,12 +114,13 @@ class C09(InterpProp):
     def shrink_candidates(self, case):
         p = case.payload
         ops = p['ops']
-        for cut in (len(ops) // 4 * 2, len(ops) - 2):
-            if 2 < cut < len(ops):
+        n0 = sum(1 for op in ops if op[0] == 'create')
+        for cut in (n0 + (len(ops) - n0) // 4 * 2, len(ops) - 2):
+            if n0 < cut < len(ops):
                 q = copy.deepcopy(p)
                 q['ops'] = ops[:cut]
                 yield q
-        for i in range(len(ops) - 2, 1, -2):
+        for i in range(len(ops) - 2, n0 - 1, -2):
             q = copy.deepcopy(p)
             del q['ops'][i:i + 2]
             yield q
@@ -124,7 +129,7 @@ class C09(InterpProp):
         ops = case.payload['ops']
         clean = True
         nconds = 0
-        for k in range(2, len(ops) - 1, 2):
+        for k in range(sum(1 for op in ops if op[0] == 'create'), len(ops) - 1, 2):
             a, b = obs['obs'][k], obs['obs'][k + 1]
             rb = b['r']
             if isinstance(rb, dict):
